@@ -129,7 +129,16 @@ fn fullstack_case(w: Which, t: &mut Tape, obs: &mut Obs) -> CaseResult {
     let mut oracles = oracles_for(w, &cfg);
     let mut rig = FullRig::new(cfg.clone(), t);
     let n = t.below(60) as usize;
-    let script: Vec<WireAct> = (0..n).map(|_| gen_wire_act(t)).collect();
+    let mut script: Vec<WireAct> = (0..n).map(|_| gen_wire_act(t)).collect();
+    // half of the lost replies are replies that break off in the middle or arrive with a bad checksum instead (derived from the
+    // position so that the decoding of the tape stays what it was)
+    for (i, a) in script.iter_mut().enumerate() {
+        if *a == WireAct::ReplyLost && i % 4 == 1 {
+            *a = WireAct::Truncated(1 + ((i * 5) % 13) as u8);
+        } else if *a == WireAct::ReplyLost && i % 4 == 3 {
+            *a = WireAct::Damaged(i as u8);
+        }
+    }
     *rig.script.borrow_mut() = script.clone();
     let np = cfg.pers.len().max(1) as u64;
     let slot = rig.sim.cfg.slot_us();
@@ -172,6 +181,12 @@ fn fullstack_case(w: Which, t: &mut Tape, obs: &mut Obs) -> CaseResult {
     obs.count("requests", rig.requests);
     obs.count("inadmissible_telegrams_in_reply_slot", rig.inadmissible);
     obs.label(&format!("peripherals={}", cfg.pers.len()));
+    if script.iter().any(|a| matches!(a, WireAct::Truncated(_))) {
+        obs.label("reply-cut-off");
+    }
+    if script.iter().any(|a| matches!(a, WireAct::Damaged(_))) {
+        obs.label("reply-with-bad-checksum");
+    }
     if script.iter().any(|a| matches!(a, WireAct::WrongSource | WireAct::WrongDest | WireAct::RequestInstead)) {
         obs.label("reply-from-wrong-source-or-kind");
     }
@@ -232,7 +247,7 @@ macro_rules! dp_subchecks {
     ($w:expr) => {
         vec![
             SubCheck::tape("histories", "random configurations and fault histories (up to 60 message cycles) followed by a fault-free continuation", |t, obs| random_case($w, t, obs, 60)),
-            SubCheck::tape("fullstack", "full stack on the SimBus: real FDL reply filter and timing, reference slaves as virtual nodes, wire faults incl. wrong source / destination / request-type replies", |t, obs| fullstack_case($w, t, obs)),
+            SubCheck::tape("fullstack", "full stack on the SimBus: real FDL reply filter and timing, reference slaves as virtual nodes, wire faults incl. wrong source / destination / request-type replies, replies that break off in the middle or arrive with a bad frame check byte", |t, obs| fullstack_case($w, t, obs)),
             SubCheck::tape("histories_long", "as histories with up to 400 message cycles", |t, obs| random_case($w, t, obs, 400)),
             SubCheck::index("exh_start", "all fault placements over {ok, request lost, reply lost, reply replaced by RS, power cycle, user diag request} of depth 5 from start-up, 3 slave sets", |i, obs| exhaustive_case($w, i, 5, 0, obs)),
             SubCheck::index("exh_running", "the same alphabet, depth 5, applied after the peripherals reached data exchange (fault-free prefix of 30 cycles)", |i, obs| exhaustive_case($w, i, 5, 30, obs)),
